@@ -9,7 +9,7 @@ from vlib import sfgen
 PROP = "C05"
 LEVEL = "proof"
 COQ_DIRS = ["C05", "FockAxes"]
-COQ_TARGETS = ["Gen/GaussCirc.vo", "C05/GaussSpectators.vo"] + list(fa.COQ_TARGETS)
+COQ_TARGETS = ["Gen/GaussCirc.vo", "C05/GaussSpectators.vo", "Base/GaussAlloc.vo", "C05/GaussAllocProofs.vo"] + list(fa.COQ_TARGETS)
 PROPERTIES_FILE = "Properties/C05.v"
 EXTRA_PROPERTIES_FILES = [fa.PROPERTIES_FILE]
 ALLOWED_AXIOMS = set()
@@ -36,6 +36,10 @@ FOCK_NAMES = [x for x in GAUSS_NAMES if x not in ("ThermalLossChannel", "Thermal
 
 def correspondence(ctx):
     fa.correspondence_fock_axes(ctx)
+    bad = gc.correspondence_alloc(ctx, ctx.budget(60, 600), tag="c05alloc")
+    if bad:
+        ctx.disagreement("corr:gaussianmodes:" + bad[0][0], "hand model of GaussianModes.%s disagrees with the implementation (n = %d)" % (bad[0][0], bad[0][1]),
+                         {"check": "alloc", "kind": bad[0][0], "n": bad[0][1]})
     failing = gc.correspondence_generated(ctx, ctx.budget(240, 3000), tag="c05")
     if failing is None:
         return
